@@ -52,6 +52,7 @@ abbrev Time := Registry.Time
 /-- status of a call's future -/
 inductive CSt where
   | queued | ok | failed
+  | cancelled        -- `future.cancel()` by `CourierClient.shutdown` before the reply: done, `exception()` raises `CancelledError`
   deriving DecidableEq, Repr
 
 def CSt.done : CSt → Bool
@@ -63,6 +64,7 @@ inductive Meth where
   | taskRaise (w : Wid)             -- a `maybe_make` call whose task raises at the worker: a delivered reply carries the exception
   | ping (w : Wid)                  -- `_check_heartbeat`: `heartbeat()` to worker `w` (no sender)
   | hb (w : Wid) (alive : Bool)     -- `heartbeat(sender = w, is_alive)` to the master's server
+  | shutdownC (w : Wid)             -- `self._client.futures.shutdown()` of `CourierClient.shutdown` (kept in `self.state` only)
   deriving DecidableEq, Repr
 
 /-- `StateWithTime`: call id and *send* time. -/
@@ -83,6 +85,7 @@ inductive EOp where
   | send (w : Wid) (alive : Bool)       -- submit `heartbeat(addr_w, alive)` to the master (delivered later)
   | deliver (k : Nat) (fail : Bool)     -- the transport delivers (or fails) the k-th queued call now
   | tick (d : Nat)                      -- the clock advances
+  | shutdown (w : Wid)                  -- `workers[w].shutdown()` (courier_utils.py:815–821): submit `shutdown`, cancel and forget the pendings — WITHOUT `_states_lock` —, then `unregister`
   deriving DecidableEq, Repr
 
 /-- Thread-local state between two yield points (inside `has_capacity` / `is_alive` / an environment op). -/
@@ -165,7 +168,7 @@ def scan (st : Nat → CSt) : List Pend → List Pend → Option (Pend × List P
   | p :: ps, keep =>
     match st p.call with
     | .ok => (some (p, ps), keep)
-    | .failed => scan st ps keep
+    | .failed | .cancelled => scan st ps keep      -- (`CancelledError` is caught: courier_utils.py:624–626)
     | .queued => scan st ps (keep ++ [p])
 
 /-- Position reached by the loop: either the next `refresh`, or its end (`self._pendings = still_pendings`,
@@ -221,6 +224,11 @@ def startE (e : Env) (t : Tid) : EOp → Env
   | .revive w => setMic e t (.revAcq w e.now)
   | .send w al => (e.submit (.hb w al)).1
   | .tick d => { e with now := e.now + d }
+  | .shutdown w =>
+    let ids := (e.clients w).pend.map (·.call)
+    let e1 := (e.submit (.shutdownC w)).1
+    setMic { e1 with calls := e1.calls.mapIdx (fun i c => if ids.contains i && c.2 == .queued then (c.1, .cancelled) else c),
+                     clients := upd e1.clients w { e1.clients w with pend := [] } } t (.dieAcq w)
   | .deliver k fail =>
     match e.queue with
     | [] => e
@@ -228,10 +236,12 @@ def startE (e : Env) (t : Tid) : EOp → Env
       let j := k % q.length
       let id := q.getD j 0
       let e1 := { e with queue := q.eraseIdx j }
-      if fail then setCall e1 id .failed
+      if e.callSt id == .cancelled then e1           -- a cancelled call runs no handler and stays cancelled
+      else if fail then setCall e1 id .failed
       else match e.calls[id]? with
         | some (.hb w al, _) => setMic e1 t (.hbAcq id w al e.now)
         | some (.taskRaise _, _) => setCall e1 id .failed
+        | some (.shutdownC _, _) => setCall e1 id .failed    -- the transport endpoints of the sched families bind no `shutdown`
         | _ => setCall e1 id .ok
 
 /-- One step of an environment thread. -/
@@ -293,7 +303,7 @@ def afterAlive (e : Env) (t : Tid) (k : K) (b : Bool) : Env :=
 def lastRes (x : X) (t : Tid) : Option Res := (x.base.T t).results.getLast?
 
 def allDone (e : Env) (ids : List Nat) : Bool := ids.all fun i => (e.callSt i).done
-def anyFailed (e : Env) (ids : List Nat) : Bool := ids.any fun i => e.callSt i == .failed
+def anyFailed (e : Env) (ids : List Nat) : Bool := ids.any fun i => e.callSt i == .failed || e.callSt i == .cancelled
 
 /-- One step of a thread that is inside a composite operation, between two pieces. -/
 def cstep (pw : Pid → List Wid) (x : X) (t : Tid) : Ctl → Option X
